@@ -17,7 +17,10 @@ cargo = (W / "harness/Cargo.toml").read_text().replace('path = "/repo/ddo"', f'p
 (W / "harness/Cargo.toml").write_text(cargo)
 cfgp = W / "harness/.cargo/config.toml"; cfgp.write_text(cfgp.read_text().replace("/verif/.build/cargo", f"{W}/.build/cargo"))
 chk = (W / "check").read_text().replace('shutil.copy("/repo/Cargo.lock", lock)', f'shutil.copy("{R}/Cargo.lock", lock)')
+chk = chk.replace('cwd="/repo"', f'cwd="{R}"')
 (W / "check").write_text(chk)
+os.environ["VERIF_EXAMPLES_DIR"] = f"{W}/.build/cargo_repo/debug/examples"
+os.environ["VERIF_C16_CORPUS"] = f"{W}/corpus/C16/cases.txt"
 sys.path.insert(0, str(V)); from checklib.props import PROPS
 claimed = [p for p in sorted(PROPS) if PROPS[p].get("claimed", True)]
 # which checks to run for a seed: its own property + the ones sharing engines (all, when cheap)
